@@ -464,3 +464,60 @@ pub fn gen_req(r: &mut Rng, k: u64) -> Req {
         ptem: None,
     }
 }
+
+// ------------------------------------------------------------------------------------------------------------
+// dotted-circle fonts (C03 only): a syllabic script whose shaper inserts U+25CC for a broken syllable in a pause
+// between GSUB stages, and a late-stage lookup that covers the dotted circle together with the consonant: whether the
+// lookup reaches the inserted glyph must not depend on what else the text contains.
+
+pub const DOTTED_SCRIPTS: &[(&[u8; 4], &str, u32, u32, &[u8; 4])] = &[
+    (b"dev2", "Deva", 0x0915, 0x093E, b"pres"),
+    (b"bng2", "Beng", 0x0995, 0x09BE, b"psts"),
+    (b"gjr2", "Gujr", 0x0A95, 0x0ABE, b"abvs"),
+    (b"tml2", "Taml", 0x0B95, 0x0BBE, b"blws"),
+    (b"khmr", "Khmr", 0x1780, 0x17B6, b"pres"),
+    (b"mym2", "Mymr", 0x1000, 0x102C, b"psts"),
+    (b"bali", "Bali", 0x1B13, 0x1B35, b"abvs"),
+    (b"java", "Java", 0xA98F, 0xA9B4, b"pres"),
+];
+
+pub fn gen_font_dotted(seed: u64, k: u64) -> (FontSpec, &'static str) {
+    let mut r = rng_for(seed ^ 0xD077ED, k);
+    let (stag, sname, cons, matra, feat) = DOTTED_SCRIPTS[(k % DOTTED_SCRIPTS.len() as u64) as usize];
+    // glyphs: 1 consonant, 2 vowel sign, 3 space, 4 dotted circle, 5.. alternates (ids spread out so that digests differ)
+    let ng = 700u16;
+    let mut spec = FontSpec::basic(ng);
+    let mut cmap = vec![(0x20u32, 3u16), (0x25CC, 4), (cons, 1), (matra, 2)];
+    cmap.sort();
+    spec.cmap = cmap;
+    let alt = |r: &mut Rng| *r.pick(&[5u16, 37, 64, 129, 300, 511, 690]);
+    let (a1, a4) = (alt(&mut r), alt(&mut r));
+    let both = Lookup::one(SubstSubtable::Single2 { coverage: Coverage::Glyphs(vec![1, 4]), substitutes: vec![a1, a4] });
+    let only_dc = Lookup::one(SubstSubtable::Single2 { coverage: Coverage::Glyphs(vec![4]), substitutes: vec![a4] });
+    let lookups = if r.chance(1, 2) { vec![both] } else { vec![only_dc, both] };
+    let mut layout = Layout::single_feature(*feat, lookups);
+    let all = layout.scripts[0].default_langsys.clone();
+    layout.scripts = vec![ScriptRecord { tag: *b"DFLT", default_langsys: all.clone(), langsys: vec![] }, ScriptRecord { tag: *stag, default_langsys: all, langsys: vec![] }];
+    layout.scripts.sort_by(|a, b| a.tag.cmp(&b.tag));
+    spec.gsub = Some(layout);
+    (spec, sname)
+}
+
+pub fn gen_req_dotted(r: &mut Rng, k: u64) -> Req {
+    let (_, sname, cons, matra, _) = DOTTED_SCRIPTS[(k % DOTTED_SCRIPTS.len() as u64) as usize];
+    let n = r.range(2, 6) as usize;
+    let text: Vec<u32> = (0..n).map(|_| match r.below(5) { 0 | 1 => cons, 2 | 3 => 0x20, _ => matra }).collect();
+    Req {
+        text: text.into_iter().enumerate().map(|(i, c)| (c, i as u32)).collect(),
+        dir: Some(Direction::LeftToRight),
+        script: Some(sname.to_string()),
+        lang: None,
+        features: vec![],
+        flags: if r.chance(1, 2) { 0 } else { 3 },
+        level: r.below(2) as u8,
+        pre: vec![],
+        post: vec![],
+        nf_vs: None,
+        ptem: None,
+    }
+}
